@@ -4,6 +4,6 @@ CONSTANTS
   FlagSets <- AllFlags
   TagLists <- McThorough
   Segs <- McSegs
-INVARIANTS Layout RefDec Prefix Final HeaderOk Framing
+INVARIANTS Layout RefDec Prefix Final HeaderOk Framing InputsUntouched NoLoss
 PROPERTY Monotone
 CHECK_DEADLOCK TRUE
